@@ -13,6 +13,7 @@ CONSTANTS
   Direct = 0
   Pinned <- PinnedM
   EmitRate = 1
+  FocusRate = 0
 INIT SInit
 NEXT SNext
 VIEW View
